@@ -175,6 +175,33 @@ func recC12(c *ctx) {
 			emit(e)
 		}
 	}
+	// ---- values handed to the caller are the caller's own: every marshaller, result scribbled over, marshalled again
+	{
+		fkp, _ := sr25519.GenerateKeyPair(bytes.NewReader(r.Bytes(4096)))
+		fsig, _ := fkp.Sign(bytes.NewReader(r.Bytes(4096)), sctx.NewTranscriptBytes([]byte("fresh")))
+		fmsk, _ := sr25519.GenerateMiniSecretKey(bytes.NewReader(r.Bytes(64)))
+		for _, m := range []struct {
+			name string
+			get  func() []byte
+		}{
+			{"KeyPair.MarshalBinary", func() []byte { b, _ := fkp.MarshalBinary(); return b }},
+			{"PublicKey.MarshalBinary", func() []byte { b, _ := fkp.PublicKey().MarshalBinary(); return b }},
+			{"SecretKey.MarshalBinary", func() []byte { b, _ := fkp.SecretKey().MarshalBinary(); return b }},
+			{"Signature.MarshalBinary", func() []byte { b, _ := fsig.MarshalBinary(); return b }},
+			{"MiniSecretKey.MarshalBinary", func() []byte { b, _ := fmsk.MarshalBinary(); return b }},
+		} {
+			b1 := m.get()
+			snap := append([]byte(nil), b1...)
+			for i := range b1 {
+				b1[i] ^= 0xff
+			}
+			ok := bytes.Equal(m.get(), snap)
+			// and the object still works: the key pair signs and its public key verifies
+			s2, err := fkp.Sign(bytes.NewReader(r.Bytes(4096)), sctx.NewTranscriptBytes([]byte("fresh2")))
+			ok = ok && err == nil && fkp.PublicKey().Verify(sctx.NewTranscriptBytes([]byte("fresh2")), s2)
+			emit(vt.Ev{"op": "srfresh", "api": m.name, "ok": ok})
+		}
+	}
 	// ---- generators: GenerateMiniSecretKey = the 32 bytes read; GenerateSecretKey = wide-reduced 64 bytes || 32 nonce bytes
 	for i := 0; i < 2; i++ {
 		ent := r.Bytes(96)
